@@ -385,7 +385,17 @@ def main(argv):
         bins = build(prop, cfgname, ['replay'])
         env = dict(env0)
         env['VF_KNOWN'] = ''
-        bad, out = replay_once(bins['replay'], env, args.replay)
+        if args.replay.endswith('.sweep'):
+            # a deterministic-sweep failure: the sweep itself is the replay
+            m = re.search(r'\.(\w+)\.sweep$', args.replay)
+            if m and m.group(1) in CONFIGS and m.group(1) != cfgname:
+                cfgname = m.group(1)
+                bins = build(prop, cfgname, ['replay'])
+            r = subprocess.run([bins['replay'], '--sweep'], env=env,
+                               stdout=subprocess.PIPE, stderr=subprocess.STDOUT)
+            bad, out = r.returncode != 0, r.stdout.decode('utf-8', 'replace')
+        else:
+            bad, out = replay_once(bins['replay'], env, args.replay)
         sys.stdout.write(out)
         if bad:
             log('VIOLATION property=%s replay=%s' % (prop, args.replay))
@@ -597,7 +607,10 @@ def main(argv):
         replay_bin = bins[cfgname]['replay']
         env = dict(env0)
         if cand.engine == 'sweep':
-            violations.append((cand, 'sweep', cand.path))
+            os.makedirs(fdir, exist_ok=True)
+            dst = os.path.join(fdir, '%s.%s.sweep' % (prop, cfgname))
+            shutil.copy(cand.path, dst)
+            violations.append((cand, 'sweep', dst))
             continue
         bad, out = replay_once(replay_bin, env, cand.path)
         if not bad:
